@@ -194,6 +194,62 @@ func procStat(pid int) (ppid int, state byte, ok bool) {
 	return pp, f[0][0], true
 }
 
+// pidOwner caches which record file a child process (keyed by pid and start time) belongs to; histories run
+// in parallel and each must count only the processes its own client spawned.
+var pidOwner sync.Map
+
+func procStartTime(pid int) string {
+	b, err := os.ReadFile(fmt.Sprintf("/proc/%d/stat", pid))
+	if err != nil {
+		return ""
+	}
+	s := string(b)
+	i := strings.LastIndexByte(s, ')')
+	if i < 0 {
+		return ""
+	}
+	f := strings.Fields(s[i+1:])
+	if len(f) < 20 {
+		return ""
+	}
+	return f[19] // field 22: starttime
+}
+
+// childrenOf returns the direct children whose environment names recPath as their record file. The
+// library's exec returns only after the child has exec'ed, so a spawned child is attributable as soon as
+// the spawning call has returned; a child that is already a zombie has no environment left and is
+// recognised by its "spawned" record line instead.
+func childrenOf(recPath string) map[int]bool {
+	out := map[int]bool{}
+	for pid := range childPIDs() {
+		key := fmt.Sprintf("%d:%s", pid, procStartTime(pid))
+		if v, ok := pidOwner.Load(key); ok {
+			if v.(string) == recPath {
+				out[pid] = true
+			}
+			continue
+		}
+		env, err := os.ReadFile(fmt.Sprintf("/proc/%d/environ", pid))
+		if err != nil || len(env) == 0 {
+			continue
+		}
+		owner := ""
+		for _, kv := range strings.Split(string(env), "\x00") {
+			if strings.HasPrefix(kv, "VH_C16_REC=") {
+				owner = strings.TrimPrefix(kv, "VH_C16_REC=")
+			}
+		}
+		if owner == "" {
+			continue
+		}
+		pidOwner.Store(key, owner)
+		if owner == recPath {
+			out[pid] = true
+		}
+	}
+	return out
+}
+
 func alive(pid int) bool {
 	pp, st, ok := procStat(pid)
 	return ok && pp == os.Getpid() && st != 'Z' && st != 'X'
@@ -239,7 +295,6 @@ func runStdioHistory(h History, dir string) HistObs {
 	c := lc.Std
 	defer c.Close()
 	obs.State0 = string(c.GetState())
-	base := childPIDs() // children that are not ours to count (none expected)
 	known := map[int]bool{}
 	syncsSent := 0
 	decoderStuck := false // a non-JSON line was served: the client's reader can no longer parse anything
@@ -276,8 +331,8 @@ func runStdioHistory(h History, dir string) HistObs {
 		o.State = string(c.GetState())
 		// --- wire accounting: processes spawned + stdin lines received by a live child ---
 		var newPIDs []int
-		for pid := range childPIDs() {
-			if !base[pid] && !known[pid] {
+		for pid := range childrenOf(recPath) {
+			if !known[pid] {
 				known[pid] = true
 				newPIDs = append(newPIDs, pid)
 			}
@@ -382,7 +437,7 @@ func histChildMain() {
 	workers := 8
 	var dir string
 	if len(hs) > 0 && hs[0].Client == ckStdio {
-		workers = 1 // process accounting (/proc children) is per process
+		workers = 6
 		dir = os.Getenv("VH_C16_RECDIR")
 		_ = os.MkdirAll(dir, 0o755)
 	}
